@@ -11,7 +11,7 @@ WRAP.once      : the spy wrappers of defer/recall run the wrapped method exactly
 import ast
 
 from sa.model import AnalysisError, walk_shallow, dotted, norm
-from sa.util import cfg_of, local_defs, resolve_name, guarded_by_edge, shallow_calls
+from sa.util import returned_values, cfg_of, local_defs, resolve_name, guarded_by_edge, shallow_calls
 from sa.context import callgraph
 from sa import queues, wrap
 
@@ -92,17 +92,21 @@ def check(run, model, tier):
         run.inst('ENDS.recall', recall, 're-posts the removed event to the back (post_fifo)', ok,
                  '' if ok else 'recall re-posts with %s' % norm(c), node=c, obligation=True)
     # returns: every return is the variable that holds the popped value; that variable is None when nothing is deferred
-    rets = [n for n in g.nodes if n.kind == 'stmt' and isinstance(n.ast, ast.Return)]
-    var = None
-    for n, c, m in pops:
-        for k, v in defs.items():
-            if any(x is c for x in v):
-                var = k
-    ok = var is not None and bool(rets) and all(isinstance(r.ast.value, ast.Name) and r.ast.value.id == var for r in rets)
-    none_init = var is not None and any(isinstance(d, ast.Constant) and d.value is None for d in defs.get(var, []) if not isinstance(d, tuple))
-    falls = [p for p, l in g.pred[g.exit] if l != 'return']
-    run.inst('ENDS.recall', recall, 'returns the removed event, None when nothing is deferred', ok and (none_init or falls == []) and (none_init or not falls),
-             '' if ok and none_init else 'recall does not return the removed event / None on the empty path', obligation=True)
+    # path rule on the reaching definitions of every returned value: after the removal the removed event is handed back, otherwise None
+    ok = True
+    n_ret = 0
+    popnodes = [n for n, _c, _m in pops]
+    for p_, lab_, vals in returned_values(g, recall.params):
+        n_ret += 1
+        for v, dn in vals:
+            is_pop = v is not None and any(v is pc for _n, pc, _m in pops)
+            is_none = isinstance(v, ast.Constant) and v.value is None
+            # a None is fine only where no removal has happened before the point that produced it
+            none_ok = is_none and dn is not None and not any(dn is pn or g.exists_path(pn, dn) for pn in popnodes)
+            if not (is_pop or none_ok):
+                ok = False
+    run.inst('ENDS.recall', recall, 'returns the removed event, None when nothing is deferred', ok and n_ret >= 1,
+             '' if ok else 'recall does not return the removed event / None on the empty path', obligation=True)
     # ---- LAYER: who touches defer_queue
     n_sites = 0
     for f in model.all_funcs():
